@@ -8,7 +8,8 @@ chosen; (NONE) when no candidate is left the result is the NoCandidates error; (
 is replaced only by a candidate whose merge base with it *is* the running head (a descendant); (DIVERGE) a
 candidate that is neither ancestor, descendant nor equal makes the result the Diverging error; (RET) the
 value returned is the running head; (COMPLETE) every candidate that passed the threshold is compared with the
-running head (no iteration of the selection loop skips the merge-base comparison).
+running head (no iteration of the selection loop skips the merge-base comparison); (THRESHOLD) `Canonical.threshold` is
+only ever the threshold argument given where the `Canonical` is built.
 Not decided: the vote arithmetic itself — that a candidate's count equals the number of *distinct*
 delegates whose tip is the candidate or a descendant of it.  (While reading I observed that a tip shared
 by n delegates with m descendant tips receives n + n*m votes; no rule of this family states that, and it
